@@ -48,13 +48,13 @@ type Prop struct {
 	Check func(env *Env, c any) Result
 	// Exhaustive, when set, enumerates a finite sub-space completely before the
 	// rapid campaign; it returns the cases.
-	Exhaustive func(env *Env) []any
+	Exhaustive  func(env *Env) []any
 	Assumptions []string
 }
 
 var registry = map[string]*Prop{}
 
-func Register(p *Prop) { registry[p.ID] = p }
+func Register(p *Prop)       { registry[p.ID] = p }
 func Lookup(id string) *Prop { return registry[id] }
 func IDs() []string {
 	var ids []string
@@ -76,6 +76,7 @@ type Env struct {
 	Repo      string
 	Known     *Known
 	Stats     *Stats
+	NoServer  bool // true: compile through the real CLI only (confirmation runs, replays)
 	res       sync.Map // lazily created co-processes etc.
 	seq       int64
 	mu        sync.Mutex
@@ -222,16 +223,16 @@ func (s *Stats) Label(l string) {
 }
 
 type statsFile struct {
-	Evals    int64            `json:"evals"`
-	NTCount  int64            `json:"nt_count"`
-	Labels   map[string]int64 `json:"labels"`
-	Discards map[string]int64 `json:"discards"`
-	Excluded map[string]int64 `json:"excluded"`
-	Infra    map[string]int64 `json:"infra"`
-	Samples  []string         `json:"samples"`
-	Extra    map[string]any   `json:"extra"`
-	Exhaustive bool           `json:"exhaustive"`
-	Requested int             `json:"requested"`
+	Evals      int64            `json:"evals"`
+	NTCount    int64            `json:"nt_count"`
+	Labels     map[string]int64 `json:"labels"`
+	Discards   map[string]int64 `json:"discards"`
+	Excluded   map[string]int64 `json:"excluded"`
+	Infra      map[string]int64 `json:"infra"`
+	Samples    []string         `json:"samples"`
+	Extra      map[string]any   `json:"extra"`
+	Exhaustive bool             `json:"exhaustive"`
+	Requested  int              `json:"requested"`
 }
 
 // Flush writes <path> (json) and <path>.h (8 bytes per distinct non-trivial hash).
@@ -253,12 +254,12 @@ func (s *Stats) Flush(path string, exhaustive bool, requested int) error {
 // ---------------------------------------------------------------- known findings
 
 type KnownEntry struct {
-	Status   string `json:"status"` // "known" | "fixed"
-	Property string `json:"property"`
-	Key      string `json:"key"`    // VKey matched by violations; also the generator exclusion flag
-	What     string `json:"what"`
-	Replay   string `json:"replay"` // path relative to /verif
-	Commit   string `json:"commit,omitempty"`
+	Status   string   `json:"status"` // "known" | "fixed"
+	Property string   `json:"property"`
+	Key      string   `json:"key"` // VKey matched by violations; also the generator exclusion flag
+	What     string   `json:"what"`
+	Replay   string   `json:"replay"` // path relative to /verif
+	Commit   string   `json:"commit,omitempty"`
 	Exclude  []string `json:"exclude,omitempty"` // generator feature flags switched off by this finding
 }
 
@@ -292,10 +293,18 @@ func LoadKnown(path string) *Known {
 }
 
 // Off reports whether a generator feature is switched off by a known finding.
-func (k *Known) Off(feature string) bool { _, ok := k.excl[feature]; return ok }
+func (k *Known) Off(feature string) bool {
+	if k == nil || k.excl == nil {
+		return false
+	}
+	_, ok := k.excl[feature]
+	return ok
+}
 
 // IsKnown reports whether a violation key of a property is a listed finding.
-func (k *Known) IsKnown(prop, vkey string) bool { return k.keys[prop+"|"+vkey] }
+func (k *Known) IsKnown(prop, vkey string) bool {
+	return k != nil && k.keys != nil && k.keys[prop+"|"+vkey]
+}
 
 // Use is the generator-side switch: returns true when the feature may be
 // generated; counts an exclusion otherwise.
